@@ -426,6 +426,24 @@ func TestEnumerateIntervals(t *testing.T) {
 			f := CompF{Name: "VCALENDAR", Comps: []CompF{{Name: "VEVENT", Start: r.s, End: r.e}}}
 			run(t, nil, Case{Mode: "match", Filter: f, Objects: []Comp{vcal(e.ev)}}, "a/"+e.form)
 			run(t, nil, Case{Mode: "match", Filter: f, Objects: []Comp{vcal(e.ev)}, QZone: 19800}, "a/"+e.form+"/qzone")
+			// the same range as a property time-range on DTSTART, alone and next to the component range, in two
+			// zones: one filter must read a zone-less value one way (added after the thorough tier found
+			// matchPropTimeRange reading open-start ranges in UTC)
+			if e.form == "allday" || e.form == "instant" {
+				pf := CompF{Name: "VCALENDAR", Comps: []CompF{{Name: "VEVENT", Props: []PropF{{Name: "DTSTART", Start: r.s, End: r.e}}}}}
+				for _, r2 := range ranges[:len(ranges):len(ranges)] {
+					if (idx+len(e.form))%5 != 0 && r2 != r {
+						continue // a fifth of the pairs, and always the diagonal
+					}
+					both := CompF{Name: "VCALENDAR", Comps: []CompF{{Name: "VEVENT", Start: r2.s, End: r2.e, Props: []PropF{{Name: "DTSTART", Start: r.s, End: r.e}}}}}
+					for _, z := range []int{0, -28800, 19800} {
+						run(t, nil, Case{Mode: "match", Filter: both, Objects: []Comp{vcal(e.ev)}, QZone: z}, "a2/"+e.form+"/comp+prop-range")
+					}
+				}
+				for _, z := range []int{0, -28800, 19800} {
+					run(t, nil, Case{Mode: "match", Filter: pf, Objects: []Comp{vcal(e.ev)}, QZone: z}, "a2/"+e.form+"/prop-range")
+				}
+			}
 		}
 	}
 	rec.ExhaustiveSub("every ordering (equalities included) of range start, range end, DTSTART and the event end on a 7-slot half-day grid, for DTEND / DURATION>0 / DURATION=0 / instant / all-day / DATE-valued DTEND events, with open start and open end")
